@@ -6,7 +6,7 @@ from .c01 import path_shape
 
 LEVEL = "model_checking"
 ASSUMPTIONS = [
-    "inputs are the well-formed encodings of C01's choice trees (same bounds) plus, in warn mode, every single out-of-range substitution of a constrained leaf of the default encodings (thorough: of the <=1-deviation encodings, and every ordered pair for the default encodings)",
+    "inputs are the well-formed encodings of C01's choice trees (same bounds), every size / cut / suffix / byte-substitution fault on the base cases that strict decoding still accepts, plus, in warn mode, every single out-of-range substitution of a constrained leaf of the default encodings (thorough: of the <=1-deviation encodings, and every ordered pair for the default encodings)",
     "the declared width of a primitive event is taken from the pinned layout",
 ]
 
@@ -16,6 +16,10 @@ def units(tier, seed):
     for u in us:
         u["seed"] = seed
         u["tier"] = tier
+    for u in cases.fault_units(tier, seed, with_prims=True):
+        u["seed"], u["tier"], u["mode"] = seed, tier, "faults"
+        u["label"] = "faults:" + u["label"]
+        us.append(u)
     return us
 
 
@@ -91,9 +95,33 @@ def check_case(acc, case, unit):
         reencode(acc, case.root, m, w, dd, "warn")
 
 
+def accepted_faults(acc, case, unit):
+    """every faulted variant of a base case that strict decoding still accepts must round-trip as well"""
+    from .. import faultspace
+    from ..ref.decode import decode
+
+    ref0 = decode(case.root, case.b, cc=case.cc, enc=case.enc)
+    fams = ["size", "length", "subst"] if (unit["tier"] == "thorough" or unit["kind"] == "struct") else ["size", "length"]
+    for fam in fams:
+        for m, f in faultspace.FAMILIES[fam](case, ref0, unit):
+            loader.cache_clear()
+            r = impl.run(case.root, m, cc=case.cc, enc=case.enc, strict=True, keep_raw=True)
+            acc.count("fault_runs")
+            if r.kind != "Done":
+                continue
+            acc.count("fault_runs_accepted")
+            acc.shape(("accepted-fault", case.root, f["fault"], f.get("path") or f.get("at")))
+            reencode(acc, case.root, m, r, dict(case.desc(), harness="reencode", input=m.hex(), fault=f), "strict")
+
+
 def run_unit(unit):
     acc = Acc()
     loader.load()
+    if unit.get("mode") == "faults":
+        cases.explore_unit(unit, unit["seed"], lambda c: accepted_faults(acc, c, unit), acc)
+        c = cases.replay_case(unit, unit["seed"], ())
+        acc.sample({"unit": unit["label"], "base_input": c.b.hex()[:80], "oracle": "every size / cut / suffix / substitution fault that strict decoding accepts round-trips"}, cap=1)
+        return acc
     cases.explore_unit(unit, unit["seed"], lambda c: check_case(acc, c, unit), acc)
     c = cases.replay_case(unit, unit["seed"], ())
     acc.sample({"unit": unit["label"], "input": c.b.hex()[:80], "oracle": "join(unmarshal(events)) == input, per-field slice alignment"})
@@ -101,7 +129,7 @@ def run_unit(unit):
 
 
 def finish(acc, tier, seed):
-    n = acc.n["executions"] + acc.n["warn_runs"]
+    n = acc.n["executions"] + acc.n["warn_runs"] + acc.n["fault_runs"]
     if acc.n["strict:Done"] == 0 or acc.n["warn_value_only"] == 0:
         acc.violation({"clause": "vacuous"}, {"harness": "finish"}, f"strict Done {acc.n['strict:Done']}, warn value-only {acc.n['warn_value_only']}")
     return {
@@ -112,6 +140,8 @@ def finish(acc, tier, seed):
         "distinct_nontrivial": len(acc.shapes),
         "rule": "strict: every choice vector with <= k deviations per root (as C01); warn: every out-of-range substitution of every constrained leaf of the default (thorough: <=1-deviation) encodings, kept when all reported problems are value problems; distinct = distinct (root, event type/width shape) or (root, corrupted path)",
         "bounds": {"roots_by_k": {k: v for k, v in acc.n.items() if str(k).startswith("k:")}},
+        "fault_runs": acc.n["fault_runs"],
+        "fault_runs_accepted_by_strict_decoding": acc.n["fault_runs_accepted"],
         "caps_hit": acc.n["caps_hit"],
         "exhaustive": acc.n["caps_hit"] == 0,
     }
